@@ -508,11 +508,27 @@ func (fe *FE) applyContract(st *State, ins ssa.Instruction, ci *callInfo, res ss
 		cc.inOld = savedOld
 	}
 	// 6. postconditions
+	assumeExported := func(e *Expr, what string) {
+		// postconditions that mention locals of the callee are internal to it: they are proved there and
+		// simply not visible at call sites
+		saved := len(fe.errs)
+		cc.what = what
+		cc.side = nil
+		t := cc.boolTerm(cc.eval(e))
+		if len(fe.errs) > saved {
+			fe.errs = fe.errs[:saved]
+			return
+		}
+		for _, s := range cc.side {
+			st.assume(s)
+		}
+		st.assume(t)
+	}
 	for i, e := range con.Ensures {
-		fe.assumeExpr(st, cc, e.E, fmt.Sprintf("ensures %d of %s", i, name))
+		assumeExported(e.E, fmt.Sprintf("ensures %d of %s", i, name))
 	}
 	for i, e := range con.EnsuresA {
-		fe.assumeExpr(st, cc, e.E, fmt.Sprintf("ensures_always %d of %s", i, name))
+		assumeExported(e.E, fmt.Sprintf("ensures_always %d of %s", i, name))
 	}
 	if res != nil {
 		if len(results) == 1 {
@@ -663,6 +679,31 @@ func (fe *FE) havocItem(st *State, cc *Ctx, it, callee string) []string {
 	case it == "locks":
 		fe.havocHeap(st, "G_held")
 		return []string{"G_held"}
+	case strings.HasPrefix(it, "mapsof("):
+		t := fe.V.resolveType(it[7:len(it)-1], cc.pkg)
+		mt, ok := t.(*types.Map)
+		if t == nil || !ok {
+			fe.errorf("modifies %s: cannot resolve map type", it)
+			return nil
+		}
+		db, vb, lb := mapBases(mt)
+		ks := fe.S.scalarSort(mt.Key())
+		var names []string
+		fe.heapSort(db, arraySort([]string{SInt, ks}, SBool))
+		fe.heapSort(lb, arraySort([]string{SInt}, SInt))
+		for _, n := range []string{db, lb} {
+			fe.frameWholeOb(st, n, "call to "+callee)
+			fe.havocHeap(st, n)
+			names = append(names, n)
+		}
+		for _, cm := range fe.components(mt.Elem()) {
+			n := vb + cm.suffix
+			fe.heapSort(n, arraySort([]string{SInt, ks}, cm.sort))
+			fe.frameWholeOb(st, n, "call to "+callee)
+			fe.havocHeap(st, n)
+			names = append(names, n)
+		}
+		return names
 	case strings.HasPrefix(it, "elemsof("):
 		t := fe.V.resolveType(it[8:len(it)-1], cc.pkg)
 		if t == nil {
